@@ -12,19 +12,11 @@
 package c01
 
 import (
-	"context"
-	"encoding/json"
-	"errors"
 	"fmt"
 	"os"
-	"os/exec"
-	"path/filepath"
 	"regexp"
 	"strings"
-	"sync"
-	"syscall"
 	"testing"
-	"time"
 
 	"pgregory.net/rapid"
 
@@ -37,143 +29,6 @@ func TestMain(m *testing.M) { stats.Main(m, "C01") }
 
 // Case is one generated case (see lib/benchcase).
 type Case = benchcase.Case
-
-// Per-case wall-clock deadlines. Reaching one is INCONCLUSIVE for that case
-// (label "timeout", counted, never a violation): the cost caps of the
-// generators keep a case at <= ~3 s (emulation) / <= ~20 s (timing) on an idle
-// core, so these are 40x / 30x margins for a loaded machine.
-const (
-	emuDeadline    = 120 * time.Second
-	timingDeadline = 600 * time.Second
-)
-
-var (
-	workerOnce sync.Once
-	workerPath string
-	workerErr  error
-)
-
-// worker returns the path of the benchrun binary. ./check builds it
-// (check.json "extra_builds") against the same repository as this test
-// binary and exports VERIF_BIN_BENCHRUN; when the test binary is run by hand
-// the worker is built once from /verif against /repo.
-func worker() (string, error) {
-	workerOnce.Do(func() {
-		if p := os.Getenv("VERIF_BIN_BENCHRUN"); p != "" {
-			workerPath = p
-			return
-		}
-		dir, err := os.MkdirTemp("", "c01-worker-")
-		if err != nil {
-			workerErr = err
-			return
-		}
-		workerPath = filepath.Join(dir, "benchrun")
-		cmd := exec.Command("go", "build", "-tags", "verif", "-o", workerPath, "./cmd/benchrun")
-		cmd.Dir = stats.VerifDir()
-		cmd.Env = append(os.Environ(), "GOFLAGS=-mod=mod", "GOPROXY=off")
-		if out, err := cmd.CombinedOutput(); err != nil {
-			workerErr = fmt.Errorf("building cmd/benchrun: %v\n%s", err, out)
-		}
-	})
-	return workerPath, workerErr
-}
-
-// tailBuf keeps the last max bytes written to it.
-type tailBuf struct {
-	mu  sync.Mutex
-	buf []byte
-	max int
-}
-
-func (t *tailBuf) Write(p []byte) (int, error) {
-	t.mu.Lock()
-	defer t.mu.Unlock()
-	t.buf = append(t.buf, p...)
-	if len(t.buf) > 2*t.max {
-		t.buf = append([]byte(nil), t.buf[len(t.buf)-t.max:]...)
-	}
-	return len(p), nil
-}
-
-func (t *tailBuf) String() string {
-	t.mu.Lock()
-	defer t.mu.Unlock()
-	b := t.buf
-	if len(b) > t.max {
-		b = b[len(b)-t.max:]
-	}
-	return string(b)
-}
-
-type outcome struct {
-	timedOut bool
-	exit     int    // exit status (-1 = killed by a signal)
-	signal   string // signal name when killed by one
-	stdout   string // tail
-	stderr   string // tail
-	wall     time.Duration
-	harness  string // non-empty = the harness itself failed (not a result)
-}
-
-// runWorker executes one case in a fresh process whose working directory is
-// a fresh directory under $TMPDIR (the simulation writes its sqlite/metrics
-// files into the cwd); the directory is removed afterwards.
-func runWorker(c Case) outcome {
-	bin, err := worker()
-	if err != nil {
-		return outcome{harness: err.Error()}
-	}
-	dir, err := os.MkdirTemp("", "c01-case-")
-	if err != nil {
-		return outcome{harness: err.Error()}
-	}
-	defer os.RemoveAll(dir)
-	raw, _ := json.Marshal(c)
-	casePath := filepath.Join(dir, "case.json")
-	if err := os.WriteFile(casePath, raw, 0o644); err != nil {
-		return outcome{harness: err.Error()}
-	}
-	deadline := emuDeadline
-	if c.Timing {
-		deadline = timingDeadline
-	}
-	if s := os.Getenv("VERIF_C01_DEADLINE_S"); s != "" {
-		var n int
-		if _, err := fmt.Sscanf(s, "%d", &n); err == nil && n > 0 {
-			deadline = time.Duration(n) * time.Second
-		}
-	}
-	ctx, cancel := context.WithTimeout(context.Background(), deadline)
-	defer cancel()
-	cmd := exec.CommandContext(ctx, bin, casePath)
-	cmd.Dir = dir
-	cmd.Env = append(os.Environ(), "TMPDIR="+dir)
-	so := &tailBuf{max: 4096}
-	se := &tailBuf{max: 8192}
-	cmd.Stdout = so
-	cmd.Stderr = se
-	cmd.WaitDelay = 5 * time.Second
-	t0 := time.Now()
-	err = cmd.Run()
-	o := outcome{stdout: so.String(), stderr: se.String(), wall: time.Since(t0)}
-	if ctx.Err() == context.DeadlineExceeded {
-		o.timedOut = true
-		return o
-	}
-	if err != nil {
-		var ee *exec.ExitError
-		if !errors.As(err, &ee) {
-			o.harness = "cannot run the worker: " + err.Error()
-			return o
-		}
-		o.exit = ee.ExitCode()
-		if ws, ok := ee.Sys().(syscall.WaitStatus); ok && ws.Signaled() {
-			o.signal = ws.Signal().String()
-		}
-	}
-	return o
-}
 
 // evidenceLines picks the lines of the worker's stderr that explain a failure
 // (verification messages, the panic line, the first frames of /repo code).
@@ -248,32 +103,32 @@ func RunCase(c Case) (res stats.Result) {
 		panic("harness: case outside the documented domain: " + why + ": " + describe(c))
 	}
 	res.Labels, res.NonTrivial = benchgen.Classify(c)
-	o := runWorker(c)
-	if o.harness != "" {
-		panic("harness: " + o.harness)
+	o := benchgen.RunWorker(c, nil)
+	if o.Harness != "" {
+		panic("harness: " + o.Harness)
 	}
-	stats.AddExtra("worker_wall_ms", o.wall.Milliseconds())
-	if o.timedOut {
+	stats.AddExtra("worker_wall_ms", o.Wall.Milliseconds())
+	if o.TimedOut {
 		// inconclusive for this case: counted, never a violation
 		res.Labels = append(res.Labels, "timeout", "timeout:"+c.Workload)
 		res.NonTrivial = false
 		stats.AddExtra("timeouts", 1)
 		return res
 	}
-	passed := o.exit == 0 && o.signal == "" && strings.HasSuffix(strings.TrimSpace(o.stdout), benchcase.PassMarker)
+	passed := o.Exit == 0 && o.Signal == "" && strings.HasSuffix(strings.TrimSpace(o.Stdout), benchcase.PassMarker)
 	if passed {
 		return res
 	}
-	if o.exit == 3 && strings.Contains(o.stderr, "BENCHRUN-HARNESS-ERROR") {
-		panic("harness: " + evidence(o.stderr))
+	if o.Exit == 3 && strings.Contains(o.Stderr, "BENCHRUN-HARNESS-ERROR") {
+		panic("harness: " + evidence(o.Stderr))
 	}
-	how := fmt.Sprintf("exit status %d", o.exit)
-	if o.signal != "" {
-		how = "killed by " + o.signal
-	} else if o.exit == 0 {
+	how := fmt.Sprintf("exit status %d", o.Exit)
+	if o.Signal != "" {
+		how = "killed by " + o.Signal
+	} else if o.Exit == 0 {
 		how = "exit status 0 without the " + benchcase.PassMarker + " line"
 	}
-	res.Violation = fmt.Sprintf("%s: worker %s after %.1fs: %s", describe(c), how, o.wall.Seconds(), evidence(o.stderr))
+	res.Violation = fmt.Sprintf("%s: worker %s after %.1fs: %s", describe(c), how, o.Wall.Seconds(), evidence(o.Stderr))
 	res.KnownID = matchKnown(c, o)
 	return res
 }
